@@ -89,7 +89,7 @@ fn digits58(mut n: u128, len: usize) -> Vec<u8> {
     v
 }
 
-struct Gen<'a> { o: &'a mut Out, rng: Rng }
+struct Gen<'a> { o: &'a mut Out, rng: Rng, thorough: bool }
 impl<'a> Gen<'a> {
     /// a blob through `from_bytes`; checks "accepted ⇒ canonical" directly
     fn blob(&mut self, cat: &str, b: &[u8]) -> String {
@@ -135,6 +135,26 @@ impl<'a> Gen<'a> {
         self.o.direct(back.as_deref().ok() == Some(b), "b58 decode(encode(b))==b", hex(b), format!("{:?}", back.map(|x| hex(&x))), hex(b));
     }
 
+    /// one (corrupted) blob through the three other forms as well — hex text, consensus (length byte ‖ blob), base58 text — and,
+    /// directly in Rust, "the four parsers agree": they accept the same blobs and return the same address. A `Decodable` /
+    /// `FromHex` / `FromStr` that stopped delegating to `from_bytes` (and, say, skipped key validation) shows here.
+    fn all_forms(&mut self, cat: &str, x: &[u8], with_text: bool) {
+        let cat = format!("blob_{}", cat);
+        let hx = hex::encode(x);
+        self.hexform(&cat, hx.as_bytes());
+        let mut c = vec![x.len() as u8]; c.extend_from_slice(x);
+        if x.len() < 128 { self.cons(&cat, &c); }
+        let txt = base58_monero::encode(x).unwrap();
+        if with_text { self.text(&cat, &txt, true); }
+        let rb = Address::from_bytes(x).ok();
+        let rh = Address::from_hex(&hx).ok();
+        let rs = Address::from_str(&txt).ok();
+        let rc = if x.len() < 128 { monero::consensus::encode::deserialize::<Address>(&c).ok() } else { rb };
+        self.o.direct(rb == rh && rb == rs && rb == rc, "from_bytes / from_hex / from_str / consensus deserialize agree on one blob (same acceptance, same address)", hex(x),
+            format!("bytes:{} hex:{} str:{} consensus:{}", rb.is_some(), rh.is_some(), rs.is_some(), rc.is_some()), "all equal".into());
+        self.o.stat("all_forms");
+    }
+
     /// one address in every form, both directions
     fn forms(&mut self, a: &Address, n: Network, k: &str, pid: &[u8]) {
         let (s, v) = (a.public_spend, a.public_view);
@@ -170,6 +190,157 @@ impl<'a> Gen<'a> {
         self.cons("valid", &ser);
     }
 
+    /// Families added after the audit.
+    fn audit_families(&mut self, addrs: &[Address]) {
+        let thorough = self.thorough;
+        let mk_addr = |n: Network, k: &str, s: PublicKey, v: PublicKey, pid: &[u8]| match k { "Standard" => Address::standard(n, s, v), "SubAddress" => Address::subaddress(n, s, v), _ => Address::integrated(n, s, v, PaymentId::from_slice(pid)) };
+        // --- known answers: address strings that exist outside this project. 1-3: the vectors of the library's own test-suite (wallet
+        // generated, keys given as bytes); 4: the sub-address (2,18) of the test-suite's wallet; 5: the Monero project's donation address,
+        // whose SECRET view key is published (getmonero.org) — its public view key is recomputed here as v·G. The blobs were obtained
+        // with an independent base58 decoder (python, outside the repository).
+        let kats: [(&str, &str, &str, &str, &str, &str); 5] = [
+            ("Standard", "e2bb117506bc69b13acfcd2acde5fb8176fd15f53143244b3e0c505af4c26cd2", "dc73c337bd58884e3f202921a8cdf5038bea6d40c6b3356cf74db719ac3b7173", "-", "3153cddf",
+             "4ADT1BtbxqEWeMKp9GgPr2NeyJXXtNxvoDawpyA4WpzFcGcoHUvXeijE66DNfohE9r1bQYaBiQjEtKE7CtkTdLwiDznFzra"),
+            ("Integrated", "11517fe6a6235124a15e9ace3c62c33e0c0bea85e4c44d0344bc544e5e6dee2c", "73d4d3ccc61e4946eb34a0c827d786eff9812f9c0e7412bf70cf8bd0363b5c73", "5876b8b72996ff97", "852d556e",
+             "4Byr22j9M2878Mtyb3fEPcBNwBZf5EXqn1Yi6VzR46618SFBrYysab2Cs1474CVDbsh94AJq7vuV3Z2DRq4zLcY3LHzo1Nbv3d8J6VhvCV"),
+            ("SubAddress", "d468671c8362e2e425f48591d59db8e806927f45bb5f218f0966b5bde6dfe707", "9a9b39191746a586de7e553c7f6015f36c989657423ba179ce82aae945668067", "-", "30e111bf",
+             "8AW7SotwFrqfAKnibspuuhfowW4g3asvpQvdrTmPcpNr2GmXPtBBSxUPZQATAt8Vw2hiX9GDyxB4tMNgHjwt8qYsCeFDVvn"),
+            ("SubAddress", "c25179ddef2ca4728fb691dd71561dc9f2e7e6b2a14284a4fe5441d7757aea02", "601782bdde614e9ba664048a27b7407df4b76ae2e50a85fcc168a4c1766b3edf", "-", "03d314fc",
+             "89pMNxzcCo5LAPZDX4qaTeanA6ZiS3VRdUbeKHzbDZkD1Q3YsDDfmXbT2zyjLeHWuuN4vxKne8kNpjH3cMk7nmhwSALCxsd"),
+            ("Standard", "42f18fc61586554095b0799b5c4b6f00cdeb26a93b20540d366932c6001617b7", "5db35109fbba7d5f275fef4b9c49e0cc1c84b219ec6ff652fda54f89f7f63c88", "-", "7ec4a75d",
+             "44AFFq5kSiGBoZ4NMDwYtN18obc8AemS33DBLWs3H7otXft3XjrpDtQGv7SqSsaBYBb98uNbr2VBBEt7f2wfn3RVGQBEP3A"),
+        ];
+        for (i, (k, sp, vw, pid, ck, txt)) in kats.iter().enumerate() {
+            let (s, v) = (PublicKey::from_slice(&unhex(sp)).unwrap(), PublicKey::from_slice(&unhex(vw)).unwrap());
+            let a = mk_addr(Network::Mainnet, k, s, v, &unhex(pid));
+            let id = format!("c12_fmt Mainnet {} {} {} {}", k, sp, vw, pid);
+            self.o.direct(a.to_string() == *txt, "known answer: to_string of the published keys is the published address", id.clone(), a.to_string(), txt.to_string());
+            self.o.direct(Address::from_str(txt).as_ref() == Ok(&a), "known answer: from_str of the published address gives the published keys", txt.to_string(), format!("{:?}", Address::from_str(txt)), id.clone());
+            let mut want = vec![[18u8, 19, 42][KINDS.iter().position(|x| x == k).unwrap()]]; want.extend(unhex(sp)); want.extend(unhex(vw)); want.extend(unhex(pid)); want.extend(unhex(ck));
+            self.o.direct(a.as_bytes() == want, "known answer: blob of the published address (independent base58 decoder)", id.clone(), hex(&a.as_bytes()), hex(&want));
+            if i == 4 {
+                let vsec = PrivateKey::from_str("f359631075708155cc3d92a32b75a7d02a5dcf27756707b47a2b31b21c389501").unwrap();
+                let vp = PublicKey::from_private_key(&vsec);
+                self.o.direct(hex(vp.as_bytes()) == *vw, "known answer: bytes 33..65 of the donation address are v·G for the published secret view key", txt.to_string(), hex(vp.as_bytes()), vw.to_string());
+            }
+            // and through the model / spec pipeline: Lean's reference base58 + Keccak + tag table must reproduce the published string
+            let r = self.o.op(id.clone(), true);
+            self.o.direct(r.split(' ').nth(1) == Some(&hex(txt.as_bytes())), "known answer: c12_fmt text", id.clone(), r.clone(), hex(txt.as_bytes()));
+            self.o.op(format!("c12_forms Mainnet {} {} {} {}", k, sp, vw, pid), true);
+            self.text("known_answer", txt, true);
+            self.blob("known_answer", &want);
+            self.o.stat("known_answer");
+        }
+        // --- shared components: ONE key pair in all 9 cells and with three payment ids; the pairs (S,V), (S,V'), (V,S), (S,S)
+        let (s, v, v2) = (valid_key(&mut self.rng), valid_key(&mut self.rng), valid_key(&mut self.rng));
+        let pids: [Vec<u8>; 3] = [vec![0; 8], vec![0xff; 8], self.rng.bytes(8)];
+        let mut lines: Vec<[String; 5]> = vec![];
+        for n in NETS { for k in KINDS {
+            let ps: Vec<Vec<u8>> = if k == "Integrated" { pids.to_vec() } else { vec![vec![]] };
+            for pid in ps { let a = mk_addr(n, k, s, v, &pid); self.forms(&a, n, k, &pid); self.o.stat("shared.same_pair_all_cells");
+                lines.push([net_name(n).into(), k.into(), hex(s.as_bytes()), hex(v.as_bytes()), hex(&pid)]); }
+        } }
+        for (ci, (n, k)) in [(Network::Mainnet, "Standard"), (Network::Testnet, "Integrated"), (Network::Stagenet, "SubAddress")].into_iter().enumerate() {
+            let pid = if k == "Integrated" { pids[ci % 3].clone() } else { vec![] };
+            for (x, y) in [(s, v2), (v, s), (s, s), (v, v)] { let a = mk_addr(n, k, x, y, &pid); self.forms(&a, n, k, &pid); self.o.stat("shared.pair_variants");
+                lines.push([net_name(n).into(), k.into(), hex(x.as_bytes()), hex(y.as_bytes()), hex(&pid)]); }
+        }
+        // --- two integrated addresses of the SAME wallet and network with different payment ids, formatted one IMMEDIATELY after the
+        // other (a checksum / blob memo keyed without the payment id would hand the second one the first one's bytes)
+        for n in NETS { for round in 0..(if thorough { 6 } else { 2 }) {
+            let (p1, p2) = if round == 0 { (vec![0u8; 8], { let mut p = vec![0u8; 8]; p[7] = 1; p }) } else { (self.rng.bytes(8), self.rng.bytes(8)) };
+            let (a1, a2) = (mk_addr(n, "Integrated", s, v, &p1), mk_addr(n, "Integrated", s, v, &p2));
+            let layout = |p: &[u8]| { let mut w = vec![spec_tag(n, "Integrated")]; w.extend_from_slice(s.as_bytes()); w.extend_from_slice(v.as_bytes()); w.extend_from_slice(p); let c = keccak4(&w); w.extend_from_slice(&c); w };
+            let (b1, b2, b1again) = (a1.as_bytes(), a2.as_bytes(), a1.as_bytes());
+            let id = format!("c12_fmt {} Integrated {} {} {} ; then payment id {}", net_name(n), hex(s.as_bytes()), hex(v.as_bytes()), hex(&p1), hex(&p2));
+            self.o.direct(b1 == layout(&p1) && b2 == layout(&p2) && b1again == b1, "as_bytes of two integrated addresses of one wallet, back to back: each has its own payment id and checksum", id.clone(), format!("{} {} {}", hex(&b1), hex(&b2), hex(&b1again)), format!("{} {}", hex(&layout(&p1)), hex(&layout(&p2))));
+            let (t1, t2) = (a1.to_string(), a2.to_string());
+            self.o.direct(t1 == base58_monero::encode(&layout(&p1)).unwrap() && t2 == base58_monero::encode(&layout(&p2)).unwrap() && t1 != t2, "to_string of two integrated addresses of one wallet, back to back", id.clone(), format!("{} {}", t1, t2), "base58 of each layout".into());
+            let (h1, h2) = (a1.as_hex(), a2.as_hex()); let (c1, c2) = (serialize(&a1), serialize(&a2));
+            self.o.direct(h1 == hex::encode(layout(&p1)) && h2 == hex::encode(layout(&p2)) && c1[1..] == layout(&p1)[..] && c2[1..] == layout(&p2)[..], "as_hex / serialize of two integrated addresses of one wallet, back to back", id.clone(), format!("{} {}", h1, h2), "hex of each layout".into());
+            let (r1, r2) = (Address::from_bytes(&b1), Address::from_bytes(&b2));
+            self.o.direct(r1.as_ref() == Ok(&a1) && r2.as_ref() == Ok(&a2), "from_bytes of two integrated blobs of one wallet, back to back", id.clone(), format!("{:?} {:?}", r1, r2), "a1 a2".into());
+            for op in ["c12_fmt", "c12_forms"] { for p in [&p1, &p2, &p1] {
+                self.o.op(format!("{} {} Integrated {} {} {}", op, net_name(n), hex(s.as_bytes()), hex(v.as_bytes()), hex(p)), true); } }
+            self.o.op(format!("c12_from_bytes {}", hex(&b1)), true); self.o.op(format!("c12_from_bytes {}", hex(&b2)), true);
+            self.o.op(format!("c12_from_str {}", hex(t1.as_bytes())), true); self.o.op(format!("c12_from_str {}", hex(t2.as_bytes())), true);
+            self.o.stat("shared.same_wallet_two_payment_ids_back_to_back");
+        } }
+        // --- blobs with 1..4 checksum bytes missing, and consensus fields whose length prefix is larger than the blob needs
+        // (69 / 77 + junk INSIDE the length-prefixed field), in every form
+        for a in addrs.iter().step_by((addrs.len() / (if thorough { 27 } else { 9 })).max(1)) {
+            let b = a.as_bytes();
+            for k in 1..=4usize { let x = &b[..b.len() - k]; self.blob("checksum_bytes_missing", x); self.all_forms("checksum_bytes_missing", x, true);
+                let mut c = vec![b.len() as u8]; c.extend_from_slice(x); self.cons("checksum_bytes_missing_full_length_byte", &c);
+                let mut c = vec![b.len() as u8]; c.extend_from_slice(x); c.extend(std::iter::repeat(0).take(k)); self.cons("checksum_bytes_zeroed", &c); }
+            for junk in [1usize, 2, 8, 50] {
+                let mut c = vec![(b.len() + junk) as u8]; c.extend_from_slice(&b); c.extend(self.rng.bytes(junk)); self.cons("length_prefix_too_large_junk_inside", &c);
+                let d = monero::consensus::encode::deserialize::<Address>(&c);
+                self.o.direct(d.is_err(), "consensus field longer than the blob (junk inside the length-prefixed field) is rejected", hex(&c), format!("{:?}", d), "Err".into());
+                let mut c = vec![(b.len() + junk) as u8]; c.extend_from_slice(&b); self.cons("length_prefix_too_large_no_junk", &c);
+                let mut x = b[..b.len() - 4].to_vec(); x.extend(self.rng.bytes(junk)); x.extend_from_slice(&[0; 4]); rechecksum(&mut x);
+                let mut c = vec![x.len() as u8]; c.extend_from_slice(&x); self.cons("length_prefix_too_large_junk_rechecksummed", &c);
+            }
+        }
+        // --- keys the constructors accept although they are not prime-order points: the identity, (0,-1), both points of order 4,
+        // the four points of order 8 — on the FORMAT side (so far they were only ever parsed)
+        let torsion: Vec<PublicKey> = curve25519_dalek::constants::EIGHT_TORSION.iter().map(|p| PublicKey::from_slice(p.compress().as_bytes()).unwrap()).collect();
+        for (i, t) in torsion.iter().enumerate() {
+            let (n, k) = (NETS[i % 3], KINDS[(i / 3 + i) % 3]);
+            let pid = if k == "Integrated" { self.rng.bytes(8) } else { vec![] };
+            for (x, y) in [(*t, v), (s, *t), (*t, *t)] { let a = mk_addr(n, k, x, y, &pid); self.forms(&a, n, k, &pid); self.o.stat("shared.torsion_key");
+                lines.push([net_name(n).into(), k.into(), hex(x.as_bytes()), hex(y.as_bytes()), hex(&pid)]); }
+        }
+        // --- recombination inside the property: a formatting line that takes ONE argument from another recorded line, executed
+        // between its two parents (network or type from elsewhere: a payment id that no longer fits the type gives `err` on all sides)
+        for a in addrs.iter().step_by((addrs.len() / 12).max(1)) {
+            let pid = match a.addr_type { AddressType::Integrated(p) => hex(&p.0), _ => "-".into() };
+            lines.push([net_name(a.network).into(), kind_name(&a.addr_type).into(), hex(a.public_spend.as_bytes()), hex(a.public_view.as_bytes()), pid]);
+        }
+        for _ in 0..(if thorough { 400 } else { 90 }) {
+            let (la, lb) = (self.rng.pick(&lines).clone(), self.rng.pick(&lines).clone());
+            let j = self.rng.below(5) as usize;
+            if la[j] == lb[j] { continue; }
+            let mut m = la.clone(); m[j] = lb[j].clone();
+            let op = if self.rng.chance(1, 2) { "c12_fmt" } else { "c12_forms" };
+            self.o.op(format!("{} {}", op, la.join(" ")), false);
+            let r = self.o.op(format!("{} {}", op, m.join(" ")), true);
+            self.o.op(format!("{} {}", op, lb.join(" ")), false);
+            self.o.stat(if r == "err" { "recombined.err" } else { "recombined.ok" });
+        }
+        // --- text-level wrappers around a valid address: what a lenient `from_str` (trim, strip a URI scheme, strip quotes) would accept
+        for a in addrs.iter().step_by((addrs.len() / (if thorough { 27 } else { 9 })).max(1)) {
+            let t = a.to_string();
+            for (cat, x) in [("uri_scheme", format!("monero:{}", t)), ("uri_scheme_slashes", format!("monero://{}", t)), ("double_quoted", format!("\"{}\"", t)), ("single_quoted", format!("'{}'", t)),
+                             ("trailing_crlf", format!("{}\r\n", t)), ("trailing_cr", format!("{}\r", t)), ("trailing_nul", format!("{}\0", t)), ("leading_nul", format!("\0{}", t)),
+                             ("leading_tab", format!("\t{}", t)), ("trailing_tab", format!("{}\t", t)), ("leading_newline", format!("\n{}", t)), ("bom", format!("\u{feff}{}", t)),
+                             ("nbsp_trailing", format!("{}\u{a0}", t)), ("uri_query", format!("{}?tx_amount=1", t)), ("angle_brackets", format!("<{}>", t)), ("doubled", format!("{}{}", t, t))] {
+                self.text(cat, &x, true);
+            }
+            let h = a.as_hex();
+            for (cat, x) in [("hex_trailing_crlf", format!("{}\r\n", h)), ("hex_quoted", format!("\"{}\"", h)), ("hex_leading_tab", format!("\t{}", h)), ("hex_0x_space", format!("0x {}", h)), ("hex_h_suffix", format!("{}h", h)), ("hex_hash_prefix", format!("#{}", h))] {
+                self.hexform(cat, x.as_bytes());
+            }
+        }
+        // --- long inputs through the text and hex parsers (so far only the consensus form saw 128 bytes and more)
+        for (i, a) in addrs.iter().step_by((addrs.len() / 5).max(1)).enumerate() {
+            let b = a.as_bytes();
+            for extra in [51usize, 59, 128, 187, 1000] {
+                let mut x = b.clone(); x.extend(if i % 2 == 0 { vec![0u8; extra] } else { self.rng.bytes(extra) });
+                self.all_forms("long_extended", &x, true); self.blob("long_extended", &x);
+                let mut y = b[..b.len() - 4].to_vec(); y.extend(self.rng.bytes(extra)); y.extend_from_slice(&[0; 4]); rechecksum(&mut y);
+                self.all_forms("long_extended_rechecksummed", &y, true); self.blob("long_extended_rechecksummed", &y);
+            }
+            // whole-buffer consensus deserialisation: the canonical encoding and nothing else
+            let ser = serialize(a);
+            let d = monero::consensus::encode::deserialize::<Address>(&ser);
+            self.o.direct(d.as_ref().ok() == Some(a), "consensus deserialize(serialize(a)) == a (whole buffer)", hex(&ser), format!("{:?}", d), "a".into());
+            let mut t = ser.clone(); t.push(0);
+            let d = monero::consensus::encode::deserialize::<Address>(&t);
+            self.o.direct(d.is_err(), "consensus deserialize rejects a trailing byte (whole buffer)", hex(&t), format!("{:?}", d), "Err".into());
+        }
+    }
+
     /// every single-field corruption of the blob `b` of a valid address
     fn corrupt(&mut self, b: &[u8], strs: &mut Vec<String>) {
         let body = b.len() - 4;
@@ -177,12 +348,13 @@ impl<'a> Gen<'a> {
         for t in 0..=255u8 {
             let mut x = b.to_vec(); x[0] = t; self.blob("tag_raw", &x);
             rechecksum(&mut x); self.blob("tag_rechecksummed", &x);
-            if t % 16 == 3 { strs.push(base58_monero::encode(&x).unwrap()); }
+            if t % 16 == 3 { strs.push(base58_monero::encode(&x).unwrap()); self.all_forms("tag_rechecksummed", &x, false); }
+            else if [18u8, 19, 42, 53, 54, 63, 24, 25, 36].contains(&t) || self.thorough { self.all_forms("tag_rechecksummed", &x, true); }
         }
         // a standard-length blob re-tagged integrated needs 8 more bytes, and vice versa
         for t in [18u8, 19, 42, 53, 54, 63, 24, 25, 36] {
-            let mut x = b[..65].to_vec(); x[0] = t; x.extend_from_slice(&self.rng.bytes(8)); x.extend_from_slice(&[0; 4]); rechecksum(&mut x); self.blob("retag_77", &x);
-            let mut x = b[..65].to_vec(); x[0] = t; x.extend_from_slice(&[0; 4]); rechecksum(&mut x); self.blob("retag_69", &x);
+            let mut x = b[..65].to_vec(); x[0] = t; x.extend_from_slice(&self.rng.bytes(8)); x.extend_from_slice(&[0; 4]); rechecksum(&mut x); self.blob("retag_77", &x); self.all_forms("retag_77", &x, true);
+            let mut x = b[..65].to_vec(); x[0] = t; x.extend_from_slice(&[0; 4]); rechecksum(&mut x); self.blob("retag_69", &x); self.all_forms("retag_69", &x, true);
         }
         // keys: invalid / non-canonical / sign-flipped / small-order encodings, checksum recomputed (and once raw)
         let mut bad: Vec<(&str, [u8; 32])> = vec![];
@@ -210,12 +382,13 @@ impl<'a> Gen<'a> {
                 rechecksum(&mut x);
                 self.blob(&format!("key_{}", name), &x);
                 if off == 1 { strs.push(base58_monero::encode(&x).unwrap()); }
+                self.all_forms(&format!("key_{}", name), &x, off != 1);
             }
         }
         // payment id bytes (integrated only): any value is fine once the checksum follows
-        if b.len() == 77 { for i in 65..73 { let mut x = b.to_vec(); x[i] ^= 0x10; self.blob("pid_raw", &x); rechecksum(&mut x); self.blob("pid_rechecksummed", &x); } }
+        if b.len() == 77 { for i in 65..73 { let mut x = b.to_vec(); x[i] ^= 0x10; self.blob("pid_raw", &x); rechecksum(&mut x); self.blob("pid_rechecksummed", &x); if i % 4 == 1 || self.thorough { self.all_forms("pid_rechecksummed", &x, true); } } }
         // each checksum byte
-        for i in body..b.len() { for d in [1u8, 0x80, 0xff] { let mut x = b.to_vec(); x[i] ^= d; self.blob("checksum", &x); if d == 1 { strs.push(base58_monero::encode(&x).unwrap()); } } }
+        for i in body..b.len() { for d in [1u8, 0x80, 0xff] { let mut x = b.to_vec(); x[i] ^= d; self.blob("checksum", &x); if d == 1 { strs.push(base58_monero::encode(&x).unwrap()); self.all_forms("checksum", &x, false); } else if self.thorough { self.all_forms("checksum", &x, true); } } }
         // several checksum bytes at once: the same mask on two / all four bytes (differences that cancel under xor), complement,
         // reversal, rotation, a checksum of a different body
         for (i, j) in [(0usize, 1usize), (0, 3), (1, 2), (2, 3)] { for d in [1u8, 0x55, 0xff] { let mut x = b.to_vec(); x[body + i] ^= d; x[body + j] ^= d; self.blob("checksum_multi", &x); } }
@@ -227,7 +400,8 @@ impl<'a> Gen<'a> {
         // every truncation length, raw and with the last four bytes made a checksum of the rest
         for n in 0..b.len() {
             self.blob("truncated", &b[..n]);
-            if n >= 4 { let mut x = b[..n].to_vec(); rechecksum(&mut x); self.blob("truncated_rechecksummed", &x); }
+            if n >= 4 { let mut x = b[..n].to_vec(); rechecksum(&mut x); self.blob("truncated_rechecksummed", &x);
+                if n % 9 == 5 || n + 1 == b.len() || n == 65 || n == 69 || n == 73 || self.thorough { self.all_forms("truncated_rechecksummed", &x, true); } }
             if n % 9 == 0 { strs.push(base58_monero::encode(&b[..n]).unwrap()); }
         }
         // extension by 1..16 bytes: appended raw (zero / random), and inserted before a recomputed checksum
@@ -238,13 +412,14 @@ impl<'a> Gen<'a> {
             self.hexform("extended", hex::encode(&x).as_bytes());
             let mut c = vec![x.len() as u8]; c.extend_from_slice(&x); self.cons("extended_blob", &c);
             let mut x = b[..body].to_vec(); x.extend(self.rng.bytes(n)); x.extend_from_slice(&[0; 4]); rechecksum(&mut x); self.blob("extended_rechecksummed", &x);
+            if n == 1 || n == 8 || n == 16 || self.thorough { self.all_forms("extended_rechecksummed", &x, true); }
         }
     }
 }
 
 pub fn run(o: &mut Out, tier: &str, seed: u64) {
     let thorough = tier == "thorough";
-    let mut g = Gen { o, rng: Rng::new(seed) };
+    let mut g = Gen { o, rng: Rng::new(seed), thorough };
     let per_cell = if thorough { 40 } else { 6 };
     let n_corrupt = if thorough { 50 } else { 9 };
     let mut addrs: Vec<Address> = vec![];
@@ -392,6 +567,8 @@ pub fn run(o: &mut Out, tier: &str, seed: u64) {
         let len = *g.rng.pick(&[2usize, 3, 5, 6, 7, 9, 10, 11, 13, 22, 24]);
         let s: Vec<u8> = (0..len).map(|_| *g.rng.pick(ALPHA)).collect(); g.b58dec("random_alphabet", &s, false);
     }
+    g.audit_families(&addrs);
+    g.o.notes.push("added families: corrupted blobs (bad tag / retagged / invalid, non-canonical, small-order keys / payment id / checksum / truncated / extended, all with recomputed checksum) through hex, consensus and base58 forms with a four-parsers-agree oracle; 5 known-answer addresses; one key pair in all 9 cells and 3 payment ids, pairs (S,V') (V,S) (S,S), the 8 torsion points as spend / view key on the format side; recombined formatting lines; URI / quote / CR LF / NUL / tab / BOM wrappers; blobs of 120..1077 bytes through text and hex".into());
     g.o.notes.push("non-trivial rule: every derived case (valid forms, single-field corruptions, boundary blocks) counts; purely random alphabet strings do not".into());
     g.o.notes.push("direct checks: layout recomputed with tiny-keccak and a hand tag table; parse(format a)==a in 4 forms; accepted blob/text => canonical; base58 crate round-trips".into());
 }
